@@ -157,6 +157,22 @@ def dask_unsafe(spec, op):
         return len(set(ax)) != len(ax)
     if op["op"] != "get":
         return False
+    # several independently invalid items (step 0, out-of-range int / list entry): which error wins is library specific
+    # (NumPy reports them in item order, dask validates integers first) — only the eager run is compared with the model
+    dim, invalid = 0, 0
+    for it in op["items"]:
+        if it[0] == "n":
+            continue
+        n = spec["shape"][dim] if dim < len(spec["shape"]) else 1
+        dim += 1
+        if it[0] == "s" and it[3] == 0:
+            invalid += 1
+        elif it[0] == "i" and not -n <= it[1] < n:
+            invalid += 1
+        elif it[0] == "l" and any(not -n <= v < n for v in it[1]):
+            invalid += 1
+    if invalid >= 2:
+        return True
     dim = 0
     for it in op["items"]:
         if it[0] == "n":
